@@ -485,6 +485,12 @@ func TestC12(t *testing.T) {
 			for _, k := range rapid.SliceOfNDistinct(rapid.SampledFrom(c12Keys), 0, 3, rapid.ID[string]).Draw(rt, "ctxkeys") {
 				c.Exec.CtxVals = append(c.Exec.CtxVals, model.KV{K: k, V: rapid.SampledFrom([]model.Val{model.Str("v-" + k), model.Int(7), model.Bool(true)}).Draw(rt, "ctxval")})
 			}
+			// defaults first, per-call values after them: a key may be passed more than once, the last one counts
+			if len(c.Exec.CtxVals) > 0 && rapid.IntRange(0, 2).Draw(rt, "dupkey") == 0 {
+				again := c.Exec.CtxVals[rapid.IntRange(0, len(c.Exec.CtxVals)-1).Draw(rt, "dupwhich")]
+				again.V = rapid.SampledFrom([]model.Val{model.Str("later-" + again.K), model.Int(8), model.Bool(false)}).Draw(rt, "dupval")
+				c.Exec.CtxVals = append(c.Exec.CtxVals, again)
+			}
 			return c
 		}
 		hh.Sub(h, mode, h.N(25000, 80000), gen, propC12)
